@@ -28,7 +28,7 @@ from vf.core import Violation, ok
 
 PID = "C14"
 LEVEL = "exploration"
-CASE_TIMEOUT = 10
+CASE_TIMEOUT = 15
 HANG_IS_VIOLATION = False
 WALL = {"quick": 150, "thorough": 1500}
 RULE = (
@@ -56,6 +56,7 @@ ASSUMPTIONS = [
 # set/if/while after the first `user` line on the executed path) is left ACTIVE with a negative head instead of
 # COMPLETED; it swallows the next matching intent and can re-run its `set`s later.  While the finding is open the
 # generated histories stop right after such a step (counted as excluded); set to False once it is fixed.
+MAX_EVENTS = 160  # every evaluation replays the whole history: cost is quadratic, so long histories are cut
 F13_OPEN = True
 # Finding C14-F14 (open, reported): flow -> `do s1` -> `do s0` where s1 reaches the inner call while it is being
 # entered and s0 starts by waiting for the user: _call_subflow records s1's element after `do s0` as the next step
@@ -84,6 +85,12 @@ def _repo():
 
         _mods.update(RailsConfig=RailsConfig, parse=parse_colang_file, flows=flows, Runtime=RuntimeV1_0, new_event=new_event_dict)
     return _mods
+
+
+def setup_worker():
+    """One-time costs (importing the action library: presidio, spacy, ...) must not run under the per-case watchdog:
+    an import interrupted by SIGALRM leaves half-initialised modules behind."""
+    build_runtime("define flow warmup\n  user warmup\n  bot warmup\n")
 
 
 def build_flow_configs(src):
@@ -238,6 +245,10 @@ class Sim:
 
     def user_step(self, choice):
         m = _repo()
+        if len(self.history) > MAX_EVENTS:
+            self.labels.add("stop:history-longer-than-%d-events" % MAX_EVENTS)
+            self.done = True
+            return
         kind, intent, name = self.resolve(choice)
         if kind == "follow" and any(a.wait == intent for a in self.stack):
             # a left flow waits for the same intent (both are inside the same subflow): competing intents, out of scope
@@ -507,6 +518,18 @@ def _run_history(program, fc, hist, rt, acts, loop, allow_instant_end, allow_nes
     return sim
 
 
+def _warm_up_unwatched():
+    """Replay mode has no setup_worker(): do the imports with the watchdog timer paused."""
+    import signal
+
+    remaining = signal.setitimer(signal.ITIMER_REAL, 0)[0]
+    try:
+        setup_worker()
+    finally:
+        if remaining:
+            signal.setitimer(signal.ITIMER_REAL, remaining)
+
+
 def _trig(*sims):
     out = {"f13": False, "f14": False}
     for sim in sims:
@@ -516,6 +539,8 @@ def _trig(*sims):
 
 
 def prop(case):
+    if "Runtime" not in _mods and case.get("leg2", True):
+        _warm_up_unwatched()
     program = case["program"]
     src = co1.render(program, indent=2, else_if=case["else_if"])
     fc = build_flow_configs(src)
